@@ -1,7 +1,7 @@
 (* C01 - Uni: every accepted event is delivered exactly once, rejected ones never.
    This file holds ONLY the property theorems (closed by `exact`), their non-vacuity examples and the
    `Print Assumptions` lines.  The lemmas live in theories/. *)
-From RM Require Import RingModel RingInv RingProps RingRun.
+From RM Require Import RingModel RingInv RingProps RingRun FullSync Chan ChanProps UniInst.
 
 (* Lock-free ring (AtomicMove), every schedule, every operation sequence, any number of threads, any N > 0:
    the values handed to consumers are, in order, exactly a prefix of the values accepted from producers
@@ -56,3 +56,49 @@ Example C01_ring_nonvacuous :
   accepted_of (log s) = [10; 20] /\ yielded_of (log s) = [10; 20] /\ rejected_of (log s) = [11; 12]
   /\ In (3%nat, REmpty) (log s).
 Proof. vm_compute. repeat split; auto 10. Qed.
+
+(* ---------------------------------------------------------------------------------------------------------------
+   Full-sync ring (FullSyncMove): the same statement, at the linearisation points (the flag CAS that succeeds) *)
+Theorem C01_fs_exactly_once_in_order :
+  forall N, 0 < N -> forall evs,
+    let s := fold_left (fexecZ N) evs finit in
+    yielded_of (flog s) = firstn (length (yielded_of (flog s))) (fpublished s) /\
+    accepted_of (flog s) = firstn (length (accepted_of (flog s))) (fpublished s).
+Proof. intros N HN evs. split; [exact (fs_yielded_prefix N HN evs)|exact (fs_accepted_prefix N HN evs)]. Qed.
+Print Assumptions C01_fs_exactly_once_in_order.
+
+(* ---------------------------------------------------------------------------------------------------------------
+   Channel level, movable atomic Uni channel (ring + StreamsManagerBase), any MAX_STREAMS, any number k of streams,
+   any mix of send / poll / executor-driven streams / cancel_all / length queries on any number of threads: *)
+Theorem C01_uni_atomic_exactly_once :
+  forall N, 0 < N -> forall M k cevs,
+    let s := ua_run N M k cevs in
+    cyields (clog st s) = firstn (length (cyields (clog st s))) (accepted_of (log (q st s))).
+Proof. exact ua_exactly_once. Qed.
+Print Assumptions C01_uni_atomic_exactly_once.
+
+(* a send is answered Ok exactly for the events the queue accepted, and Full exactly for those it rejected
+   (the response carries the payload of the call: C01_ring_response_matches_call) *)
+Theorem C01_uni_atomic_responses :
+  forall N M k cevs,
+    let s := ua_run N M k cevs in
+    (forall v, In v (accepted_of (log (q st s))) <-> (In v (csendok (clog st s)) \/ inflight st s v)) /\
+    csendfull (clog st s) = rejected_of (log (q st s)).
+Proof. intros N M k cevs. split; [intros v; exact (ua_ok_iff_accepted N M k cevs v)|exact (ua_full_iff_rejected N M k cevs)]. Qed.
+Print Assumptions C01_uni_atomic_responses.
+
+(* Channel level, movable full-sync Uni channel *)
+Theorem C01_uni_fullsync_exactly_once :
+  forall N, 0 < N -> forall M k cevs,
+    let s := uf_run N M k cevs in
+    cyields (clog fsst s) = firstn (length (cyields (clog fsst s))) (fpublished (q fsst s)).
+Proof. exact uf_exactly_once. Qed.
+Print Assumptions C01_uni_fullsync_exactly_once.
+
+Theorem C01_uni_fullsync_responses :
+  forall N M k cevs,
+    let s := uf_run N M k cevs in
+    (forall v, In v (accepted_of (flog (q fsst s))) <-> (In v (csendok (clog fsst s)) \/ inflight fsst s v)) /\
+    csendfull (clog fsst s) = rejected_of (flog (q fsst s)).
+Proof. intros N M k cevs. split; [intros v; exact (uf_ok_iff_accepted N M k cevs v)|exact (uf_full_iff_rejected N M k cevs)]. Qed.
+Print Assumptions C01_uni_fullsync_responses.
